@@ -42,10 +42,11 @@ def make_inputs(ck, rnd, n):
     inputs = []
     from . import c01
     small = c01.tlc_circuits(ck, rnd, ck.pick(8, 200))      # every small netlist of the bounded builder model NetBuild.tla first
-    for t in range(n + len(small)):
+    wide = [gen.layered_circuit(rnd, rnd.choice([70, 96, 130]), 3) for _ in range(ck.pick(1, 4))]    # scale: levels in which more than 64 signals die
+    for t in range(n + len(small) + len(wide)):
         # (parity logic with the smallest capacity: waveforms fill up and overflow - an operation must stay inside its own memory)
         parity = rnd.random() < 0.25
-        c = small[t] if t < len(small) else gen.parity_circuit(rnd) if parity else gen.gen_circuit(rnd, max_gates=ck.pick(8, 12), max_ff=2)
+        c = small[t] if t < len(small) else wide[t - n - len(small)] if t >= n + len(small) else gen.parity_circuit(rnd) if parity else gen.gen_circuit(rnd, max_gates=ck.pick(8, 12), max_ff=2)
         nl = len(c.lines)
         caps = 4 if parity else rnd.choice([4, 8, [rnd.choice([4, 8, 12]) for _ in range(nl + 3)]])
         sims = rnd.choice([1, 2, 3])
